@@ -34,12 +34,42 @@ def _chk(ctx, S, ok, text, node, detail=None, arrays=(), nontrivial=True, known=
                 ctx.error(text, node, {"reason": "a test the rule cannot decide guards a store into this array",
                                        "tests": [ast.unparse(t.test)[:80] for t in S.ev.w.undecided][:4]})
                 return False
-        for v, vocab in (known or []):
-            for ix, _val, _st in S.cells(v):
-                if not _recognised(ix, vocab):
-                    ctx.error(text, node, {"reason": "a store into this array uses an index the rule does not recognise", "index": _r(ix, 200)})
-                    return False
+        for entry in (known or []):
+            v, vocab = entry[0], entry[1]
+            plain = entry[2] if len(entry) > 2 else []
+            for ix, val, _st in S.cells(v):
+                if _recognised(ix, vocab):
+                    continue
+                # a known selector put into another order (np.sort(bset), a mask of it ...) while the stored rows are exactly the rows that belong to
+                # the selector in its own order: the rule understands the store, and it pairs row i with the wrong DOF whenever the selector is not ascending
+                base = _strip_reorder(ix, vocab) if is_rat(ix) else None
+                if base is not None and _recognised(base, vocab) and any(eq(base, pi) and eq(val, pv) for pi, pv in plain):
+                    continue
+                ctx.error(text, node, {"reason": "a store into this array uses an index the rule does not recognise", "index": _r(ix, 200)})
+                return False
     return ctx.check(ok, text, node, detail, nontrivial=nontrivial)
+
+
+REORDER = ("np.sort", "np.unique", "sorted", "locate.index2bool", "np.flip", "np.flipud")
+
+
+def _strip_reorder(ix, vocab):
+    """the index with every `reorder(selector)` (selector known to the rule) replaced by the selector itself; None when nothing was replaced"""
+    hit = [False]
+
+    def go(v):
+        sc = split_call(v)
+        if sc is not None and sc[0] == "np.ix_":
+            return F.fn("call:np.ix_", *[go(x) for x in sc[1]])
+        if sc is not None and sc[0] in REORDER and sc[1] and any(is_rat(a) and eq(sc[1][0], a) for a in vocab):
+            hit[0] = True
+            return sc[1][0]
+        t = untuple(v)
+        if t is not None:
+            return F.fn("tuple", *[go(x) for x in t])
+        return v
+    out = go(ix)
+    return out if hit[0] else None
 
 
 def _recognised(ix, vocab):
@@ -75,6 +105,16 @@ def _ixv(S, text, **bind):
 
 def _r(v, n=240):
     return repr(v)[:n]
+
+
+LEN_FORMS = ("len({v})", "{v}.size", "{v}.shape[0]")
+
+
+def _sign_len(S, template, vec, sg):
+    """state the sign of a quantity that contains the length of a (flattened, one-dimensional) vector, in every spelling of that length:
+    `template` has the placeholder {n}"""
+    for form in LEN_FORMS:
+        S.sign(template.format(n=form.format(v=vec)), sg)
 
 
 # ============================================================================================================ R1  cbtf
@@ -219,8 +259,7 @@ def r1_cbtf(ctx):
     def run(q_empty, mapping=False, miss=False):
         S = Run(ctx, fn, inline=inl, consts=consts, run=False, handler_path=(lambda t: miss))
         S.truth("isinstance(save, abc.MutableMapping)", mapping)
-        for form in ("{q}.size", "len({q})", "{q}.shape[0]"):
-            S.sign(form.format(q="locate.flippv(bset, m.shape[0])"), "zero" if q_empty else "pos")
+        _sign_len(S, "{n}", "locate.flippv(bset, m.shape[0])", "zero" if q_empty else "pos")
         S.sign("a.ndim - 1", "pos")
         S.sign("a.ndim - 2", "zero")
         S.sign("a.shape[1] - 1", "pos")
@@ -253,12 +292,12 @@ def r1_cbtf(ctx):
     ok = eq(S.cell(A, "bset"), S.root("a")) and len(S.cells(A)) == 2
     _chk(ctx, S, ok, "cbtf: the returned boundary acceleration is the enforced one at every frequency (including 0 Hz, where it cannot be derived from the "
                      "displacement) and the interior acceleration is the solver's", ret.node or fn, [(_r(i, 80), _r(v, 120)) for i, v, _ in S.cells(A)], arrays=[A],
-         known=[(A, [S.root("bset"), qv, S.root(NZ)])])
+         known=[(A, [S.root("bset"), qv, S.root(NZ)], [(S.root("bset"), S.root("a"))])])
     bd = S.buf(D)
     ok = eq(S.cell(D, Q), F.fn("attr:d", sol)) and eq(S.cell(D, f"np.ix_(bset, {NZ})"), S.root(f"-a[:, {NZ}] / {OM}[{NZ}] ** 2")) \
         and len(S.cells(D)) == 2 and bd is not None and is_rat(bd.init) and bd.init.is_zero()
     _chk(ctx, S, ok, "cbtf: boundary displacement = -a/W^2 at non-zero frequencies only (zero at 0 Hz), interior displacement from the solver", ret.node or fn,
-         [(_r(i, 80), _r(v, 120)) for i, v, _ in S.cells(D)], arrays=[D], known=[(D, [S.root("bset"), qv, S.root(NZ)])])
+         [(_r(i, 80), _r(v, 120)) for i, v, _ in S.cells(D)], arrays=[D], known=[(D, [S.root("bset"), qv, S.root(NZ)], [(_ixv(S, f"np.ix_(bset, {NZ})"), S.root(f"-a[:, {NZ}] / {OM}[{NZ}] ** 2"))])])
     ok = eq(fr, S.root("freq"))
     ctx.check(ok, "cbtf: the interior system is solved at the requested frequencies", fs and ret.node or fn, _r(fr), nontrivial=False)
     # ---- q-set equation of motion:  Mqq q'' + Bqq q' + Kqq q = -(Mqb a + Bqb v_b),  v_b = a/(i W) at non-zero frequencies, 0 at 0 Hz
@@ -438,7 +477,7 @@ def r2_conversion(ctx):
     for drm in (False, True):
         S = Run(ctx, fn, args=[None, None, (L, mc), None], inline=inl, consts=consts, run=False)
         S.truth("drm", drm)
-        S.sign("np.size(M, 1) - len(b)", "pos")
+        _sign_len(S, "np.size(M, 1) - {n}", "b", "pos")
         S.ev.run(fn.body)
         runs[drm] = S
     S = runs[False]
@@ -474,8 +513,16 @@ def r2_conversion(ctx):
     ctx.check(ok, "cbconvert: converting with the reciprocal factors undoes the conversion on translations, rotations and modal DOF", fn)
     for nm in ("C", "D"):
         b = S.buf(arr[nm])
-        ok = b is not None and is_rat(b.init) and b.init.equals(1) and b.shape is not None and len(b.shape) == 1 and S.same(b.shape[0], "np.size(M, 1)")
-        _chk(ctx, S, ok, f"cbconvert: {nm} starts as ones over all np.size(M, 1) DOF", fn, _r(b), arrays=[arr[nm]], nontrivial=False)
+        sized = b is not None and b.shape is not None and len(b.shape) == 1 and S.same(b.shape[0], "np.size(M, 1)")
+        ones = sized and is_rat(b.init) and b.init.equals(1)
+        if nm == "C":
+            # C is never stored at the boundary rotations: there it keeps the value it was created with
+            _chk(ctx, S, ones, "cbconvert: C starts as ones over all np.size(M, 1) DOF (the boundary rotations keep that value)", fn, _r(b), arrays=[Cv], nontrivial=False)
+        else:
+            # D is stored at the translations, the rotations and the modal DOF - every DOF: the value it was created with never shows, only its size
+            covered = sized and all(S.cell(Dv, ixt) is not None for ixt in (trn, rot, qset))
+            _chk(ctx, S, ones or covered, "cbconvert: D has np.size(M, 1) entries and every one is defined (created as ones, or stored on translations, rotations and modal DOF)",
+                 fn, _r(b), arrays=[Dv], nontrivial=False)
     # ---- uset_convert: exactly the rows that hold lengths
     fn = cs.func(ctx, CB, "uset_convert")
     LC, MC = F.sym("LC"), F.sym("MC")
@@ -493,6 +540,8 @@ def r2_conversion(ctx):
         u = unfn(mask) if is_rat(mask) else None
         if u is None:
             return None
+        if u[0] == "nonzero0" and len(u[1]) == 1:
+            return rows_of(u[1][0])          # the integer positions of a row mask select the same rows
         if u[0] == "cmp:Eq" and len(u[1]) == 2:
             a, b = u[1]
             if eq(b, DOF):
@@ -584,7 +633,7 @@ def r3_reorder(ctx):
                 S = Run(ctx, fn, inline=inl, consts=consts, run=False)
                 S.truth("drm", drm)
                 S.truth("last", last)
-                S.sign("np.size(M, 1) - len(b)", "zero" if lq0 else "pos")
+                _sign_len(S, "np.size(M, 1) - {n}", "b", "zero" if lq0 else "pos")
                 S.ev.run(fn.body)
                 r = S.ret()
                 if not is_rat(r):
@@ -744,7 +793,10 @@ def r5_cbcheck_quantities(ctx):
     computations; everything written to the report under the label stiffness / geometry / eigensolution is built from that set and from no
     other (a copy-and-paste slip between the three siblings is the realistic defect); rbe is normalised to the identity at the reference DOF."""
     fn = cs.func(ctx, CB, "cbcheck")
-    keep_opaque = ("cbcoordchk", "_cbcoordchk", "_solve_eig", "cgmass", "cbconvert", "cbreorder", "uset_convert", "_print_type_info", "_values_check",
+    # the public wrapper cbcoordchk is followed down to the worker (`_cbcoordchk`), so calling either is the same; should the worker be folded into
+    # the wrapper, the wrapper is the opaque call
+    worker = "_cbcoordchk" if "_cbcoordchk" in cs.pristine(ctx, CB)[0] else "cbcoordchk"
+    keep_opaque = (worker, "_solve_eig", "cgmass", "cbconvert", "cbreorder", "uset_convert", "_print_type_info", "_values_check",
                    "rbdispchk", "_rbdispchk", "rbmultchk", "_rbmultchk", "mk_net_drms", "cbtf")
     inl, consts = _tables(ctx, exclude=keep_opaque)
 
@@ -786,9 +838,11 @@ def r5_cbcheck_quantities(ctx):
     ctx.check(ok, "cbcheck: rbg comes from the geometry (the b-set rows of uset, the reference point)", ret.node or fn, None if ok else _r(rbg))
     ua = unfn(rbs)
     cc = split_call(ua[1][0]) if ua is not None and ua[0] == "attr:rbmodes" else None
-    sig = signature(cs.func(ctx, CB, "cbcoordchk"))
+    sig = signature(cs.func(ctx, CB, worker))
     pa = place(cc[1], cc[2], sig) if cc is not None else {}
-    ok = cc is not None and cc[0] == "cbcoordchk" and eq(pa.get("K"), K) and S.same(pa.get("bset"), "bseto") and S.same(pa.get("refpoint"), "bref")
+    if worker == "_cbcoordchk":
+        pa = dict(zip(("fout", "K", "bset", "refpoint"), [pa.get(nm) for nm in sig[:4]]))          # by position: the names of a private function may change
+    ok = cc is not None and cc[0] == worker and eq(pa.get("K"), K) and S.same(pa.get("bset"), "bseto") and S.same(pa.get("refpoint"), "bref")
     ctx.check(ok, "cbcheck: rbs comes from the stiffness-based coordinate check of the same stiffness, boundary set and reference DOF", ret.node or fn,
               None if ok else _r(rbs, 300))
     ffs = [c for c in S.calls("_solve_eig")]
@@ -1075,6 +1129,127 @@ def r6_coordchk(ctx):
                                                           "reference DOF, e.g. reference DOF spread over several nodes"})
         else:
             ctx.error("_cbcoordchk (null boundary DOF): the renumbering of the reference DOF after trimming was not recognised", fn, _r(new, 400))
+
+
+# ============================================================================================================ R7  cbcheck(reorder=True)   (NOT registered)
+def _concrete(S, v, world, depth=0):
+    """value of an index expression in a finite world {symbol name: tuple of ints}: only order-based operations (sort, argsort, searchsorted,
+    gather, arange, len, scatter into a fresh array) - None when anything else occurs"""
+    if depth > 12 or not is_rat(v):
+        return None
+    if v.is_const():
+        c = v.const_value()
+        return int(c) if c.denominator == 1 else None
+    n = cs.symname(v)
+    if n is not None and n in world:
+        return world[n]
+    b = S.buf(v)
+    if b is not None and n is not None:
+        cells = S.cells(v)
+        shp = _concrete(S, b.shape[0], world, depth + 1) if b.shape and len(b.shape) == 1 and is_rat(b.shape[0]) else None
+        if b.shape and b.shape[0] == "like":
+            like = _concrete(S, b.shape[1], world, depth + 1)
+            shp = len(like) if isinstance(like, tuple) else None
+        if shp is None or not cells:
+            return None
+        out = [None] * shp
+        for ix, val, _ in cells:
+            i_, v_ = _concrete(S, ix, world, depth + 1), _concrete(S, val, world, depth + 1)
+            if not isinstance(i_, tuple) or not isinstance(v_, tuple) or len(i_) != len(v_) or any(not 0 <= k < shp for k in i_):
+                return None
+            for k, x in zip(i_, v_):
+                out[k] = x
+        return None if any(x is None for x in out) else tuple(out)
+    u = unfn(v)
+    if u is None:
+        return None
+    nm, args = u
+    if nm == "arange0" and len(args) == 1:
+        k = _concrete(S, args[0], world, depth + 1)
+        return tuple(range(k)) if isinstance(k, int) and 0 <= k <= 64 else None
+    if nm == "idx" and len(args) == 2:
+        x, i_ = _concrete(S, args[0], world, depth + 1), _concrete(S, args[1], world, depth + 1)
+        if isinstance(x, tuple) and isinstance(i_, tuple) and all(isinstance(k, int) and 0 <= k < len(x) for k in i_):
+            return tuple(x[k] for k in i_)
+        return None
+    sc = split_call(v)
+    if sc is None or sc[2]:
+        return None
+    xs = [_concrete(S, a, world, depth + 1) for a in sc[1]]
+    if sc[0] in ("np.argsort", ".argsort") and len(xs) == 1 and isinstance(xs[0], tuple):
+        return tuple(sorted(range(len(xs[0])), key=lambda k: (xs[0][k], k)))
+    if sc[0] in ("np.sort", "sorted") and len(xs) == 1 and isinstance(xs[0], tuple):
+        return tuple(sorted(xs[0]))
+    if sc[0] in ("len", "np.size") and len(xs) == 1 and isinstance(xs[0], tuple):
+        return len(xs[0])
+    if sc[0] in ("np.searchsorted", ".searchsorted") and len(xs) == 2 and all(isinstance(x, tuple) for x in xs):
+        import bisect
+        return tuple(bisect.bisect_left(xs[0], t) for t in xs[1])
+    return None
+
+
+def r7_reorder_geometry(ctx):
+    """cbcheck(reorder=True) moves the boundary DOF to the front *in the order of bseto* (cbreorder: new row j is old DOF bseto[j] - C06-R3) and must hand
+    the geometry table to rbgeom_uset with its rows in that same order, otherwise grid j of the geometry-based modes is paired with the stiffness and
+    mass of another grid.  Decided in a finite world - every ordering of three distinct boundary DOF; sort / argsort / searchsorted / gather see values
+    only through comparisons, so a mismatch found there is a mismatch for three boundary grids in that order.  Both readings of the table's row order
+    are accepted (rows ascending in DOF - the b-set rows of a Nastran USET table -, or rows already in bseto order); a gather that fits neither
+    reading for some ordering is reported.
+
+    NOT in RULES: the unchanged tree gathers with np.argsort(bseto), the inverse of the permutation needed, and fails this rule for the two cyclic
+    orderings of three grids (checked with a run in a scratch copy, see the pass-3 report of C06).  Register it once that is fixed or listed."""
+    import itertools
+    fn = cs.func(ctx, CB, "cbcheck")
+    worker = "_cbcoordchk" if "_cbcoordchk" in cs.pristine(ctx, CB)[0] else "cbcoordchk"
+    keep_opaque = (worker, "_solve_eig", "cgmass", "cbconvert", "cbreorder", "uset_convert", "_print_type_info", "_values_check",
+                   "rbdispchk", "_rbdispchk", "rbmultchk", "_rbmultchk", "mk_net_drms", "cbtf")
+    inl, consts = _tables(ctx, exclude=keep_opaque)
+    S = Run(ctx, fn, inline=inl, consts=consts, erase_T=True, run=False)
+    S.truth("uset is None", False)
+    S.truth("conv is None", True)
+    S.truth("reorder", True)
+    S.truth("rb_norm is None", False)
+    S.truth("rb_norm", False)
+    S.sign("len(locate.flippv(bseto, np.size(Mcb, 0)))", "pos")
+    S.sign("em_filt", "zero")
+    S.ev.run(fn.body)
+    ffs = S.calls("_solve_eig")
+    geo = S.calls("n2p.rbgeom_uset")
+    if len(ffs) != 1 or len(geo) != 1:
+        ctx.error("cbcheck (reorder=True): the free-free solution / the geometry-based modes were not found", fn, [len(ffs), len(geo)])
+        return
+    pf = place(ffs[0][1], ffs[0][2], signature(cs.func(ctx, CB, "_solve_eig")))
+    pf = list(pf.values())
+    ok = len(pf) >= 4 and S.same(pf[1], "cbreorder(Kcb, bseto)") and S.same(pf[2], "cbreorder(Mcb, bseto)")
+    ctx.check(ok, "cbcheck (reorder=True): mass and stiffness are reordered with the boundary DOF first, in the order of bseto", ffs[0][3], None if ok else [_r(x, 120) for x in pf[1:3]])
+    if not ok:
+        return
+    tab = place(geo[0][1], geo[0][2], ["uset", "refpoint"]).get("uset")
+    U = S.root("uset[n2p.mksetpv(uset, 'p', 'b')]")
+    P = None
+    if eq(tab, U):
+        P = "identity"
+    else:
+        u = unfn(tab) if is_rat(tab) else None
+        if u is not None and u[0] == "idx" and eq(u[1][0], F.fn("attr:iloc", U)):
+            P = u[1][1]
+    if P is None:
+        ctx.error("cbcheck (reorder=True): the geometry table handed to rbgeom_uset is not a row selection of the b-set rows of `uset`", geo[0][3], _r(tab, 300))
+        return
+    bad_a, bad_b = None, None
+    for p_ in itertools.permutations((2, 5, 9)):
+        got = tuple(range(3)) if P == "identity" else _concrete(S, P, {"bseto": p_})
+        if not isinstance(got, tuple) or len(got) != 3 or sorted(got) != [0, 1, 2]:
+            ctx.error("cbcheck (reorder=True): the row order of the geometry table could not be evaluated", geo[0][3], {"rows": _r(P, 300), "bseto": p_, "value": got})
+            return
+        srt = sorted(p_)
+        if bad_b is None and tuple(srt[k] for k in got) != p_:
+            bad_b = {"bseto": p_, "matrix rows hold DOF": p_, "table rows (ascending table) hold DOF": tuple(srt[k] for k in got)}
+        if bad_a is None and got != (0, 1, 2):
+            bad_a = {"bseto": p_, "matrix rows hold DOF": p_, "table rows (table in bseto order) hold DOF": tuple(p_[k] for k in got)}
+    ok = bad_a is None or bad_b is None
+    ctx.check(ok, "cbcheck (reorder=True): row j of the geometry table given to rbgeom_uset describes the DOF in row j of the reordered mass and stiffness "
+                  "(for every ordering of three boundary DOF, under either reading of the table's row order)", geo[0][3], None if ok else [bad_b, bad_a])
 
 
 RULES = [
